@@ -75,7 +75,7 @@ func registerBoth(name string, props []string, fires int, qb, tb int, body func(
 	quickBound[name], thoroughBound[name] = qb, tb
 	cn := name + "+cancel"
 	register(&Scenario{Name: cn, Props: []string{"C16"}, MaxFires: fires, Horizon: 20000, Body: func(x *X) { body(x, true) }})
-	quickBound[cn], thoroughBound[cn] = qb, tb
+	quickBound[cn], thoroughBound[cn] = qb-1, tb-1 // the extra thread multiplies the schedules
 }
 
 func addCancel(n *Node, cancel bool) {
@@ -86,7 +86,7 @@ func addCancel(n *Node, cancel bool) {
 
 func init() {
 	// S-commit: follower (member 1) receives the peers' height-1 traffic; the last two COMMITs race with an observer.
-	registerBoth("S-commit", []string{"C13"}, 1, 2, 3, func(x *X, cancel bool) {
+	registerBoth("S-commit", []string{"C13"}, 1, 3, 4, func(x *X, cancel bool) {
 		n := newNode(x, 1)
 		n.Boot()
 		msgs := n.peerMsgs(1, "B1")
@@ -115,7 +115,7 @@ func init() {
 	})
 
 	// S-commit-vs-sync: the committing COMMIT races with UpdateState calls of equal, older and newer heights.
-	registerBoth("S-commit-vs-sync", []string{"C13", "C14"}, 0, 2, 3, func(x *X, cancel bool) {
+	registerBoth("S-commit-vs-sync", []string{"C13", "C14"}, 0, 3, 4, func(x *X, cancel bool) {
 		n := newNode(x, 1)
 		n.Boot()
 		msgs := n.peerMsgs(1, "B1")
@@ -159,7 +159,7 @@ func init() {
 
 	// S-sync-burst: UpdateState bursts from two threads while the worker is inside a ValidateBlockProposal
 	// that only returns when its context is cancelled.
-	registerBoth("S-sync-burst", []string{"C14", "C15"}, 0, 2, 3, func(x *X, cancel bool) {
+	registerBoth("S-sync-burst", []string{"C14", "C15"}, 0, 3, 4, func(x *X, cancel bool) {
 		n := newNode(x, 1)
 		n.BlockVal[1] = true
 		n.Boot()
@@ -207,7 +207,7 @@ func init() {
 
 	// S-blocked-leader: the node leads (h1,v0); RequestNewBlockProposal waits for its context. An election
 	// timeout or a sync must release it, and the late result must not be broadcast.
-	registerBoth("S-blocked-leader", []string{"C15", "C14"}, 1, 2, 3, func(x *X, cancel bool) {
+	registerBoth("S-blocked-leader", []string{"C15", "C14"}, 1, 3, 4, func(x *X, cancel bool) {
 		n := newNode(x, 0)
 		n.BlockReq[1] = true
 		n.Boot()
@@ -240,7 +240,7 @@ func init() {
 
 	// S-election-vs-votes: member 1 leads view 1. Its own election timeout races with the peers' VIEW_CHANGE
 	// votes for view 1 and a stale-view PREPARE.
-	registerBoth("S-election-vs-votes", []string{"C13", "C19"}, 2, 2, 3, func(x *X, cancel bool) {
+	registerBoth("S-election-vs-votes", []string{"C13", "C19"}, 2, 3, 4, func(x *X, cancel bool) {
 		n := newNode(x, 1)
 		n.Boot()
 		s := x.S
@@ -276,7 +276,7 @@ func init() {
 
 	// S-commit-error: the consumer's commit callback fails; the node must stay at its height, keep its state
 	// consistent and commit again when asked to sync.
-	registerBoth("S-commit-error", []string{"C13"}, 1, 2, 3, func(x *X, cancel bool) {
+	registerBoth("S-commit-error", []string{"C13"}, 1, 3, 4, func(x *X, cancel bool) {
 		n := newNode(x, 1)
 		n.CommitErrAt[1] = true
 		n.Boot()
@@ -300,7 +300,7 @@ func init() {
 	})
 
 	// S-idle+cancel: cancellation of an idle node with the election timer armed (C16 only).
-	registerBoth("S-idle", []string{"C16"}, 1, 3, 4, func(x *X, cancel bool) {
+	registerBoth("S-idle", []string{"C16"}, 1, 4, 6, func(x *X, cancel bool) {
 		n := newNode(x, 1)
 		n.Boot()
 		addCancel(n, cancel)
